@@ -15,6 +15,7 @@ import SonicSpec.Model.SearchViews
 import SonicSpec.Proofs.SearchRaw
 import SonicSpec.Proofs.SearchPreorder
 import SonicSpec.Proofs.SearchDepth
+import SonicSpec.Proofs.SearchNode
 namespace SonicSpec.Props.C14
 open SonicSpec SonicSpec.Json SonicSpec.Search
 
@@ -53,21 +54,51 @@ theorem skipFast_doc {s : Bytes} {d : JVal} (h : parseDoc s = some d) :
     · cases h
   · cases h
 
+/-! ## `match_key`: the piecewise unescape-and-compare loop -/
+
+/-- on a key literal all of whose escapes `unescape` can decode (`keyWF`; on a strictly valid string
+    this excludes only lone / wrongly ordered surrogate escapes) the native comparison - one memcmp
+    for an escape-free literal, otherwise plain bytes one by one and each escape decoded into a
+    buffer that must be a prefix of the rest of the key, first mismatch ends it - decides exactly
+    "the decoded literal equals the wanted key" -/
+theorem matchKey_eq_decode_compare {raw key : Bytes} (h : keyWF (raw.length + 1) raw = true) :
+    matchKey raw key = if unescapeKey raw = key then KeyCmp.eq else KeyCmp.ne :=
+  matchKey_eq h
+
+/-- where they differ (finding C14-lone-surrogate-key): the literal `\ud800` denotes U+FFFD for
+    encoding/json and for `unescapeKey`, but `match_key` reports an error when the comparison reaches
+    it; it is not reached when an earlier byte already differs (`x\ud800` against `a`: plain mismatch) -/
+theorem matchKey_lone_surrogate_witness :
+    unescapeKey [92, 117, 100, 56, 48, 48] = [239, 191, 189] ∧
+    matchKey [92, 117, 100, 56, 48, 48] [239, 191, 189] = KeyCmp.err ∧
+    keyWF 7 [92, 117, 100, 56, 48, 48] = false ∧
+    matchKey [120, 92, 117, 100, 56, 48, 48] [97] = KeyCmp.ne := by decide +kernel
+
+/-- the same on a whole document, `{"\ud800":1,"a":2}` with path `a`: the document is valid, the
+    specification finds `2`, the searcher model (faithful to `match_key`) reports a syntax error: the
+    hypothesis `keysWF` of `search_eq_locate` cannot be dropped -/
+theorem search_lone_surrogate_witness :
+    (parseDoc [123, 34, 92, 117, 100, 56, 48, 48, 34, 58, 49, 44, 34, 97, 34, 58, 50, 125]).isSome = true ∧
+    ((parseDoc [123, 34, 92, 117, 100, 56, 48, 48, 34, 58, 49, 44, 34, 97, 34, 58, 50, 125]).map fun d => ((locate d [.key [97]]).map render, keysWF d)) = some (some [50], false) ∧
+    search {} [123, 34, 92, 117, 100, 56, 48, 48, 34, 58, 49, 44, 34, 97, 34, 58, 50, 125] [.key [97]] = .inval := by decide +kernel
+
 /-! ## search = locate -/
 
-/-- MAIN THEOREM.  For every valid document, every path and every option set the byte-level
+/-- MAIN THEOREM (over the searcher model that compares keys with the native `matchKey` loop).
+    Hypothesis `keysWF d`: every object key literal of the document is decodable by `unescape`.
+    For every such valid document, every path and every option set the byte-level
     searcher returns exactly what the specification finds on the tree: when `locate` finds a value
     the searcher returns a raw slice which, read as a document of its own, is that value; otherwise
     it reports the same failure class (missing key / index past the end: not found; key into a
     non-object or index into a non-array: invalid; negative index into an array: bad path). -/
-theorem search_eq_locate {s : Bytes} {d : JVal} (h : parseDoc s = some d) (o : Options) (p : Path) :
+theorem search_eq_locate {s : Bytes} {d : JVal} (h : parseDoc s = some d) (hk : keysWF d = true) (o : Options) (p : Path) :
     match locateR d p with
     | .found w => ∃ raw, search o s p = .found raw ∧ parseDoc raw = some w
     | .notFound => search o s p = .notFound
     | .inval => search o s p = .inval
     | .eof => search o s p = .eof
     | .badPath => search o s p = .badPath := by
-  obtain ⟨r, hAt⟩ := at_of_parseDoc h
+  obtain ⟨r, hAt⟩ := at_of_parseDoc h hk
   have := (getByPath_locate (s.length + 1) p d s r hAt o.validateJSON).1
   unfold search
   cases hl : locateR d p with
@@ -81,18 +112,18 @@ theorem search_eq_locate {s : Bytes} {d : JVal} (h : parseDoc s = some d) (o : O
   | badPath => rw [hl] at this; simp only [Agrees] at this; rw [this]; rfl
 
 /-- the searcher finds something exactly when the path exists in the tree -/
-theorem search_found_iff {s : Bytes} {d : JVal} (h : parseDoc s = some d) (o : Options) (p : Path) :
+theorem search_found_iff {s : Bytes} {d : JVal} (h : parseDoc s = some d) (hk : keysWF d = true) (o : Options) (p : Path) :
     (∃ raw, search o s p = .found raw) ↔ ∃ w, locate d p = some w := by
-  have := search_eq_locate h o p
+  have := search_eq_locate h hk o p
   unfold locate
   cases hl : locateR d p <;> rw [hl] at this <;> simp [Res.toOption]
   · obtain ⟨raw, hr, _⟩ := this; exact ⟨raw, hr⟩
   all_goals (intro raw hr; rw [this] at hr; cases hr)
 
 /-- `parse (search result) = located subtree` -/
-theorem search_raw_is_located {s : Bytes} {d : JVal} (h : parseDoc s = some d) (o : Options) (p : Path)
+theorem search_raw_is_located {s : Bytes} {d : JVal} (h : parseDoc s = some d) (hk : keysWF d = true) (o : Options) (p : Path)
     {raw : Bytes} (hr : search o s p = .found raw) : parseDoc raw = locate d p := by
-  have := search_eq_locate h o p
+  have := search_eq_locate h hk o p
   unfold locate
   cases hl : locateR d p <;> rw [hl] at this
   · obtain ⟨raw', hr', hp⟩ := this
@@ -101,26 +132,26 @@ theorem search_raw_is_located {s : Bytes} {d : JVal} (h : parseDoc s = some d) (
   all_goals (rw [this] at hr; cases hr)
 
 /-- missing / wrong kind / out of range ⇒ nothing is returned -/
-theorem search_missing {s : Bytes} {d : JVal} (h : parseDoc s = some d) (o : Options) (p : Path)
+theorem search_missing {s : Bytes} {d : JVal} (h : parseDoc s = some d) (hk : keysWF d = true) (o : Options) (p : Path)
     (hm : locate d p = none) : ∀ raw, search o s p ≠ .found raw := by
   intro raw hr
-  have := (search_found_iff h o p).1 ⟨raw, hr⟩
+  have := (search_found_iff h hk o p).1 ⟨raw, hr⟩
   obtain ⟨w, hw⟩ := this
   rw [hm] at hw; cases hw
 
 /-- a key that no member of the addressed object carries: not found -/
-theorem missing_key_not_found {s : Bytes} {d : JVal} (h : parseDoc s = some d) (o : Options) (q p : Path)
-    {kvs : List (Bytes × JVal)} {k : Bytes} (hq : locateR d q = .found (.obj kvs)) (hk : lookupKey k kvs = none) :
+theorem missing_key_not_found {s : Bytes} {d : JVal} (h : parseDoc s = some d) (hk : keysWF d = true) (o : Options) (q p : Path)
+    {kvs : List (Bytes × JVal)} {k : Bytes} (hq : locateR d q = .found (.obj kvs)) (hmiss : lookupKey k kvs = none) :
     search o s (q ++ PathElem.key k :: p) = .notFound := by
-  have := search_eq_locate h o (q ++ PathElem.key k :: p)
+  have := search_eq_locate h hk o (q ++ PathElem.key k :: p)
   rw [locateR_append, hq] at this
-  simpa [locateR, hk] using this
+  simpa [locateR, hmiss] using this
 
 /-- an index at or past the end of the addressed array: not found -/
-theorem index_out_of_range_not_found {s : Bytes} {d : JVal} (h : parseDoc s = some d) (o : Options) (q p : Path)
+theorem index_out_of_range_not_found {s : Bytes} {d : JVal} (h : parseDoc s = some d) (hk : keysWF d = true) (o : Options) (q p : Path)
     {xs : List JVal} {i : Nat} (hq : locateR d q = .found (.arr xs)) (hi : xs.length ≤ i) :
     search o s (q ++ PathElem.idx i :: p) = .notFound := by
-  have := search_eq_locate h o (q ++ PathElem.idx i :: p)
+  have := search_eq_locate h hk o (q ++ PathElem.idx i :: p)
   rw [locateR_append, hq] at this
   have hx : xs[i]? = none := by simpa using hi
   have hneg : ¬ ((i : Int) < 0) := by omega
@@ -128,14 +159,14 @@ theorem index_out_of_range_not_found {s : Bytes} {d : JVal} (h : parseDoc s = so
 
 /-- a key into something that is not an object, an index into something that is not an array:
     reported as invalid, never a value -/
-theorem wrong_kind_not_found {s : Bytes} {d : JVal} (h : parseDoc s = some d) (o : Options) (q p : Path)
+theorem wrong_kind_not_found {s : Bytes} {d : JVal} (h : parseDoc s = some d) (hk : keysWF d = true) (o : Options) (q p : Path)
     {v : JVal} (hq : locateR d q = .found v) (e : PathElem)
-    (hk : match e, v with
+    (hkind : match e, v with
       | .key _, .obj _ => False
       | .idx _, .arr _ => False
       | _, _ => True) :
     search o s (q ++ e :: p) = .inval := by
-  have := search_eq_locate h o (q ++ e :: p)
+  have := search_eq_locate h hk o (q ++ e :: p)
   rw [locateR_append, hq] at this
   cases e <;> cases v <;> simp_all [locateR]
 
@@ -145,9 +176,9 @@ theorem wrong_kind_not_found {s : Bytes} {d : JVal} (h : parseDoc s = some d) (o
     valid document (`ValidateJSON` chooses between the validating and the fast skipper for the
     located value - they agree by the key lemma; `CopyReturn` and `ConcurrentRead` are not
     parameters of the result at all) -/
-theorem search_options_irrelevant {s : Bytes} {d : JVal} (h : parseDoc s = some d) (o o' : Options) (p : Path) :
+theorem search_options_irrelevant {s : Bytes} {d : JVal} (h : parseDoc s = some d) (hk : keysWF d = true) (o o' : Options) (p : Path) :
     search o s p = search o' s p := by
-  obtain ⟨r, hAt⟩ := at_of_parseDoc h
+  obtain ⟨r, hAt⟩ := at_of_parseDoc h hk
   have h1 := (getByPath_locate (s.length + 1) p d s r hAt o.validateJSON).2
   have h2 := (getByPath_locate (s.length + 1) p d s r hAt o'.validateJSON).2
   unfold search
@@ -156,10 +187,10 @@ theorem search_options_irrelevant {s : Bytes} {d : JVal} (h : parseDoc s = some 
 /-- every view of the located node (type, typed accessors, generic conversion, iterator contents,
     the Preorder events of its raw text: all functions of the node's raw text through the parser)
     is the corresponding view of the value `locate` finds -/
-theorem views_agree {s : Bytes} {d : JVal} (h : parseDoc s = some d) (o : Options) (p : Path)
+theorem views_agree {s : Bytes} {d : JVal} (h : parseDoc s = some d) (hk : keysWF d = true) (o : Options) (p : Path)
     {raw : Bytes} (hr : search o s p = .found raw) {α : Type} (view : JVal → α) :
     (parseDoc raw).map view = (locate d p).map view := by
-  rw [search_raw_is_located h o p hr]
+  rw [search_raw_is_located h hk o p hr]
 
 /-! ## Preorder -/
 
@@ -190,11 +221,11 @@ theorem preorder_sound (s : Bytes) {es : List Event} (h : preorder s = some es) 
     exact ⟨v, r, rfl, h.symm⟩
 
 /-- the located node's raw text, traversed, gives the events of the located value -/
-theorem preorder_of_located {s : Bytes} {d : JVal} (h : parseDoc s = some d) (o : Options) (p : Path)
+theorem preorder_of_located {s : Bytes} {d : JVal} (h : parseDoc s = some d) (hk : keysWF d = true) (o : Options) (p : Path)
     {raw : Bytes} (hr : search o s p = .found raw) : preorder raw = (locate d p).map flatten := by
-  have hl := search_raw_is_located h o p hr
+  have hl := search_raw_is_located h hk o p hr
   cases hw : locate d p with
-  | none => rw [hw] at hl; have := search_missing h o p hw raw; exact absurd hr this
+  | none => rw [hw] at hl; have := search_missing h hk o p hw raw; exact absurd hr this
   | some w => rw [hw] at hl; simp [preorder_eq_flatten hl]
 
 /-! ## Preorder's nesting bound, sequences of lookups -/
@@ -237,6 +268,53 @@ theorem lookup_sequence_history_free (o : Options) (s : Bytes) (before after : L
     (searchSeq o s (before ++ p :: after))[before.length]? = some (search o s p) := by
   simp [searchSeq]
 
+/-! ## the Node side: the byte-level lazy loader behind `Node.Get / Index / GetByPath` -/
+
+/-- `node_get_eq_locate`.  ANY sequence of `Get(key)` / `Index(i)` calls on one fresh lazy root of a
+    valid document: every answer is the raw text of exactly the child the specification names
+    (`stepSpec`: first occurrence of a duplicated key; position in an array; nothing otherwise; and
+    the documented pair-by-position for `Index` on an object) - whatever was asked before, however
+    much of the node is loaded by then.  No hypothesis on key literals: this loader decodes keys with
+    `unquote.String`. -/
+theorem node_get_eq_locate {s : Bytes} {d : JVal} (h : parseDoc s = some d) (es : List PathElem) :
+    AnsAll (nodeRun (.raw s) es) (es.map (stepSpec d)) :=
+  nodeRun_ok (n := .raw s) h es
+
+/-- the same for sequences of `GetByPath` calls on one root -/
+theorem node_getbypath_eq_locate {s : Bytes} {d : JVal} (h : parseDoc s = some d) (ps : List Path) :
+    AnsAll (nodeRunPaths (.raw s) ps) (ps.map (pathSpec d)) :=
+  nodeRunPaths_ok (n := .raw s) h ps
+
+/-- and the Node API's reading of a path returns what `locate` returns whenever `locate` finds
+    something (the converse fails only for an index applied to an object: finding
+    C14-node-index-on-object, witness below) -/
+theorem node_path_finds_located {d w : JVal} {p : Path} (hp : p ≠ []) (h : locate d p = some w) :
+    pathSpec d p = some w :=
+  pathSpec_of_locate p d w hp h
+
+/-- `{"a":{"b":7,"c":8}}`, path `a`,1: nothing for `locate`, the second pair for the Node API, and
+    the loader model returns its text -/
+theorem node_index_on_object_witness :
+    ((parseDoc [123, 34, 97, 34, 58, 123, 34, 98, 34, 58, 55, 44, 34, 99, 34, 58, 56, 125, 125]).map fun d =>
+        ((locate d [.key [97], .idx 1]).map render, (pathSpec d [.key [97], .idx 1]).map render)) = some (none, some [56]) ∧
+    (nodeGetByPath (.raw [123, 34, 97, 34, 58, 123, 34, 98, 34, 58, 55, 44, 34, 99, 34, 58, 56, 125, 125]) [.key [97], .idx 1]).2 = some [56] := by decide +kernel
+
+/-- typed accessors and conversions of the located node, spelled out (instances of `views_agree`):
+    type, StrictString, StrictNumber, StrictBool, StrictInt64, Float64 (the correctly rounded binary64
+    of the literal, `Num.toF64Bits`), InterfaceUseNumber and Interface (numbers as float64) -/
+theorem typed_views_agree {s : Bytes} {d : JVal} (h : parseDoc s = some d) (hk : keysWF d = true) (o : Options) (p : Path)
+    {raw : Bytes} (hr : search o s p = .found raw) :
+    (parseDoc raw).map typeOf = (locate d p).map typeOf ∧
+    (parseDoc raw).map strView = (locate d p).map strView ∧
+    (parseDoc raw).map numView = (locate d p).map numView ∧
+    (parseDoc raw).map boolView = (locate d p).map boolView ∧
+    (parseDoc raw).map int64View = (locate d p).map int64View ∧
+    (parseDoc raw).map f64View = (locate d p).map f64View ∧
+    (parseDoc raw).map toGeneric = (locate d p).map toGeneric ∧
+    (parseDoc raw).map toFloatGeneric = (locate d p).map toFloatGeneric :=
+  ⟨views_agree h hk o p hr _, views_agree h hk o p hr _, views_agree h hk o p hr _, views_agree h hk o p hr _,
+   views_agree h hk o p hr _, views_agree h hk o p hr _, views_agree h hk o p hr _, views_agree h hk o p hr _⟩
+
 /-! ## non-vacuity: concrete documents (escaped key, duplicate key, brackets and quotes inside
     skipped strings, white space) -/
 
@@ -266,5 +344,8 @@ example : preorderD 2 [91, 91, 93, 44, 91, 93, 44, 91, 93, 93] =
     .ok [.arrBegin, .arrBegin, .arrEnd, .arrBegin, .arrEnd, .arrBegin, .arrEnd, .arrEnd] := by decide +kernel
 example : preorderD 2 [91, 91, 91, 93, 93, 93] = .tooDeep := by decide +kernel
 example : maxRecurse = 4096 := by decide +kernel
+
+/-- `1.5` and `1e400` through the exact number model -/
+example : f64Of [49, 46, 53] = some 4609434218613702656 ∧ f64Of [49, 101, 52, 48, 48] = none := by decide +kernel
 
 end SonicSpec.Props.C14
